@@ -4028,11 +4028,13 @@ def add_measures(part):
     beat_map = part.beat_map
     inv_beat_map = part.inv_beat_map
     mcounter = 1
+    pos = ts_start_times[0]
 
     for ts_start, ts_end, measure_dur in zip(
         ts_start_times, ts_end_times, beats_per_measure
     ):
-        pos = ts_start
+        # (an existing measure may reach over the signature change)
+        pos = max(pos, ts_start)
 
         while pos < ts_end:
             measure_start = pos
